@@ -20,5 +20,5 @@ if not a.class_scope and a.status == "open":
 if a.commit:
     ent["commit"] = a.commit
 data["findings"] = [e for e in data["findings"] if e["id"] != a.id] + [ent]
-json.dump(data, open(P, "w"), indent=1, sort_keys=True)
+json.dump(data, open(P, "w"), indent=1)
 print("added", a.id, "class", r["class"], "witnesses", len(wits))
